@@ -387,6 +387,9 @@ def two_peers_strategy(tier):
         "save_blobs": st.sampled_from([True, True, False]),
         "peers": st.lists(st.fixed_dictionaries({"frag": st.sampled_from([1024, 4096, 16384, 65536, 0]),
                                                  "start_delay": st.sampled_from([0, 0, 1, 3, 10])}), min_size=2, max_size=3),
+        # one more connection, to a peer that turns the request down; its refusal arrives right before / right after the piece of
+        # data that completes the blob on the first connection, or early
+        "spoiler": st.sampled_from([None, None, "before_last", "after_last", "early"]),
     })
 
 
@@ -414,6 +417,21 @@ async def two_peers_async(case, out, loop):
             client.connection_made(tc)
             links.append((server, client, ts, tc, ev, peer))
 
+        spoil = {"client": None, "tc": None, "done": False}
+        if case.get("spoiler"):
+            sc = BlobExchangeClientProtocol(loop, DOWNLOAD_T)
+            stc = PipeTransport(loop, sc, ('5.6.7.99', 3333))
+            sc.connection_made(stc)
+            spoil.update(client=sc, tc=stc)
+
+        def spoil_now():
+            if spoil["client"] is not None and not spoil["done"]:
+                spoil["done"] = True
+                del spoil["tc"].out[:]
+                spoil["tc"].feed(json.dumps({"available_blobs": [], "lbrycrd_address": ADDR, "blob_data_payment_rate": "RATE_ACCEPTED",
+                                             "incoming_blob": {"error": "Blob not found"}}).encode())
+        first_link = {"delivered": 0}
+
         async def pump(ts, tc, ev, peer):
             frag = peer["frag"]
             nbody = max(1, len(content) // 600)   # at most ~600 body fragments per peer
@@ -431,7 +449,21 @@ async def two_peers_async(case, out, loop):
                     n = len(ts.out) if not frag else min(len(ts.out), max(frag, nbody))
                     data = bytes(ts.out[:n])
                     del ts.out[:n]
+                    is_first = tc is links[0][3]
+                    completes = False
+                    if is_first:
+                        he = json_end(data) if first_link["delivered"] == 0 else 0
+                        if first_link["delivered"] == 0 and he > 0:
+                            first_link["hdr"] = he
+                        first_link["delivered"] += len(data)
+                        completes = "hdr" in first_link and first_link["delivered"] >= first_link["hdr"] + len(content)
+                        if case.get("spoiler") == "early" and first_link["delivered"] > 0:
+                            spoil_now()
+                        if completes and case.get("spoiler") == "before_last":
+                            spoil_now()
                     tc.feed(data)
+                    if is_first and completes and case.get("spoiler") == "after_last":
+                        spoil_now()
                     moved = True
                     await asyncio.sleep(0)
                 # bytes written towards an end that is already gone are lost (as on a closed socket)
@@ -452,9 +484,16 @@ async def two_peers_async(case, out, loop):
         for (_, _, ts, tc, ev, peer) in links:
             pumps.append(asyncio.ensure_future(pump(ts, tc, ev, peer)))
         cb = client_side.bm.get_blob(h, len(content) if case["known_length"] else None)
-        results = await asyncio.wait_for(asyncio.gather(
-            *(request_blob(loop, cb, '5.6.7.%d' % (10 + i), 3333, CONNECT_T, DOWNLOAD_T, connected_protocol=links[i][1])
-              for i in range(len(links))), return_exceptions=True), 600)
+        calls = [request_blob(loop, cb, '5.6.7.%d' % (10 + i), 3333, CONNECT_T, DOWNLOAD_T, connected_protocol=links[i][1])
+                 for i in range(len(links))]
+        if spoil["client"] is not None:
+            calls.append(request_blob(loop, cb, '5.6.7.99', 3333, CONNECT_T, DOWNLOAD_T, connected_protocol=spoil["client"]))
+            out.label("spoiler:" + case["spoiler"])
+        results = await asyncio.wait_for(asyncio.gather(*calls, return_exceptions=True), 600)
+        if spoil["client"] is not None:
+            results = results[:-1]      # the refused request is expected to fail
+            if spoil["done"]:
+                out.label("spoiler-delivered")
         await quiesce(loop)
         for r in results:
             if isinstance(r, BaseException) and not isinstance(r, (asyncio.CancelledError, OSError)):
@@ -1320,7 +1359,7 @@ PARTS = [
          essential=("boundary_inside", "boundary_at_frag_end", "split_exactly_at_header_end", "content:json_prefix", "repeat_request",
                     "size=2MiB")),
     Part("two_peers", two_peers_strategy, lambda c: _run(two_peers_async, c), 120, 800, quick_shards=4, thorough_shards=16,
-         essential=("peers:2", "peers:3")),
+         essential=("peers:2", "peers:3", "spoiler:before_last", "spoiler:after_last", "spoiler-delivered")),
     Part("downloader", downloader_strategy, lambda c: _run(downloader_async, c), 200, 1200, quick_shards=4, thorough_shards=16,
          essential=("peer:honest", "peer:never_connects", "peer:slow_connect", "peer:silent", "peer:refuses", "CT<DT", "CT>DT",
                     "honest_slower_than_connect_timeout", "no_honest_peer", "blob#1")),
